@@ -133,13 +133,14 @@ theorem fields_not_fixed : ∀ f ∈ Gen.TREEINFO_PATH_FIELDS,
 
 /-- the options written after the four identifying ones: path kinds, then `parent` -/
 def tailOpts (pu : Option Str) (paths : List (Str × Str)) : IniSec :=
-  pathOpts paths ++ match pu with | some p => [(kParent, p)] | none => []
+  pathOpts paths ++ parentOpt pu
 
 theorem tailOpts_nodup (pu : Option Str) (paths : List (Str × Str)) : ((tailOpts pu paths).map (·.1)).Nodup := by
   unfold tailOpts
   cases pu with
-  | none => simpa using pathOpts_nodup paths
+  | none => simpa [parentOpt] using pathOpts_nodup paths
   | some p =>
+    simp only [parentOpt]
     rw [List.map_append, List.nodup_append]
     refine ⟨pathOpts_nodup paths, by simp, ?_⟩
     intro a ha b hb e
@@ -158,6 +159,7 @@ theorem tailOpts_lookup_field (pu : Option Str) (paths : List (Str × Str)) (f :
     | none => rfl
     | some p =>
       have : ¬ kParent = f := fun e => (fields_not_fixed f hf).2.2.2.2.1 e.symm
+      simp only [parentOpt]
       rw [lookup_cons_eq]; simp [this]
 
 theorem tailOpts_lookup_other (pu : Option Str) (paths : List (Str × Str)) (k : Str) (hk : k ∉ Gen.TREEINFO_PATH_FIELDS) :
@@ -167,7 +169,7 @@ theorem tailOpts_lookup_other (pu : Option Str) (paths : List (Str × Str)) (k :
   rw [List.lookup_append, this]
   cases pu with
   | none => rfl
-  | some p => rw [lookup_cons_eq]; rfl
+  | some p => simp only [parentOpt]; rw [lookup_cons_eq]; rfl
 
 theorem baseOpts_lookup (pu : Option Str) (id uid name type : Str) (paths : List (Str × Str)) (k : Str) :
     (baseOpts pu id uid name type paths).lookup k =
